@@ -1249,8 +1249,10 @@ class Executor:
             return [(v, st)]
         if n in self.table.classes:
             return [(ClassRef(n), st)]
-        if n in ('bisect', 'copy', 'math', 'np', 'random', 'time', 'os', 'json', 'concurrent'):
+        if n in ('bisect', 'copy', 'math', 'np', 'random', 'time', 'os', 'json', 'concurrent', 'logging', 'warnings'):
             return [(ModuleRef(n), st)]
+        if n in ('__name__', '__file__', '__doc__'):
+            return [(V(Ty('ref', cls='str'), sym.str_const(n)), st)]      # module dunder: some string
         if n in ('True', 'False'):
             return [(vbool(n == 'True'), st)]
         if n in ('int', 'float', 'str', 'list', 'bool', 'dict', 'type'):
